@@ -386,25 +386,34 @@ except Exception:  # pragma: no cover - mitmproxy not importable: only the PKI/p
 
 
 def make_stack(env: TlsEnv, *, client_tls=True, server_tls=True, server_address=("upstream.example", 443), server_open=False,
-               server_sni=None, transport="tcp", extra_policy=None, conn_policy=None, on_event=None, sockname=("127.0.0.1", 8080)):
-    """ServerTLSLayer / ClientTLSLayer / Recorder under a Driver.  Returns (driver, context, recorder, layers)."""
+               server_sni=None, transport="tcp", extra_policy=None, conn_policy=None, on_event=None, sockname=("127.0.0.1", 8080),
+               other_server_conn=False):
+    """ServerTLSLayer / ClientTLSLayer / Recorder under a Driver.  Returns (driver, context, recorder, layers).
+    other_server_conn: the ServerTLSLayer gets its own Server object instead of context.server (what the stack for an
+    https:// upstream proxy does: ServerTLSLayer(context, conn)); it is available as driver.server_conn."""
     import driver as D
+    from mitmproxy import connection as mconn
     from mitmproxy.connection import ConnectionState
     from mitmproxy.proxy.layers import tls
     c = D.make_context(env.options, transport=transport, sockname=sockname)
-    if server_address is not None:
-        c.server.address = server_address
+    if other_server_conn:
+        srv = mconn.Server(address=server_address)
+        c.server.address = ("final-destination.example", 443)
+    else:
+        srv = c.server
+        if server_address is not None:
+            srv.address = server_address
     if server_sni is not None:
-        c.server.sni = server_sni
+        srv.sni = server_sni
     if server_open:
-        c.server.state = ConnectionState.OPEN
-        c.server.peername = (server_address[0], server_address[1])
-        c.server.timestamp_start = 1605699330
+        srv.state = ConnectionState.OPEN
+        srv.peername = (server_address[0], server_address[1])
+        srv.timestamp_start = 1605699330
     layers = []
     top = None
     last = None
     if server_tls:
-        top = last = tls.ServerTLSLayer(c)
+        top = last = tls.ServerTLSLayer(c, srv) if other_server_conn else tls.ServerTLSLayer(c)
         layers.append(last)
     if client_tls:
         if not server_tls:
@@ -430,6 +439,7 @@ def make_stack(env: TlsEnv, *, client_tls=True, server_tls=True, server_address=
     else:
         last.child_layer = rec
     d = D.Driver(c, top, hook_policy=env.hook_policy(extra_policy), conn_policy=conn_policy)
+    d.server_conn = srv
     return d, c, rec, layers
 
 
